@@ -317,6 +317,42 @@ def run(chk, repo):
                 and not (isinstance(kwarg(c, 'reverse'), ast.Constant) and kwarg(c, 'reverse').value is False)]
     revs = _sem16.facts_where(ngi, lambda st: _sem16.own_stmt(st) and (any(True for c in _sem16.calls_in_stmt(st, 'reversed')) or any(True for c in _sem16.calls_in_stmt(st, 'reverse'))))
     ok = not bad_sort and bool(revs) and all(_sem16.known(fx, 'is_reversed') is True for _st, fx in revs)
+    if not ok and not bad_sort:
+        # the same thing as a value: what is returned is REV(x) exactly when the scan ran backwards (x[::-1], list(reversed(x)), conditional expression)
+        class _Rev(ast.NodeTransformer):
+            def visit_Subscript(self, n):
+                self.generic_visit(n)
+                if isinstance(n.slice, ast.Slice) and n.slice.lower is None and n.slice.upper is None and n.slice.step is not None and unparse(n.slice.step) == '-1':
+                    return ast.Call(func=ast.Name(id='REV', ctx=ast.Load()), args=[n.value], keywords=[])
+                return n
+
+            def visit_Call(self, n):
+                self.generic_visit(n)
+                if call_name(n) == 'list' and len(n.args) == 1 and isinstance(n.args[0], ast.Call) and call_name(n.args[0]) == 'reversed':
+                    return ast.Call(func=ast.Name(id='REV', ctx=ast.Load()), args=n.args[0].args, keywords=[])
+                if call_name(n) == 'reversed' and isinstance(n.func, ast.Name):
+                    return ast.Call(func=ast.Name(id='REV', ctx=ast.Load()), args=n.args, keywords=[])
+                return n
+        rets_ = [r for r in ast.walk(ngi) if isinstance(r, ast.Return) and r.value is not None]
+        if len(rets_) == 2:
+            # `if is_reversed: return REV(x)` / `return x`
+            rf = {id(st): fx for st, fx in _sem16.facts_where(ngi, lambda st: isinstance(st, ast.Return))}
+            kinds = []
+            for r in rets_:
+                t_ = unparse(_Rev().visit(ast.fix_missing_locations(ast.parse(unparse(r.value), mode='eval').body)))
+                k_ = _sem16.known(rf.get(id(r)), 'is_reversed')
+                kinds.append((bool(re.match(r'^REV\(\w+\)$', t_)), bool(re.match(r'^\w+$', t_)), k_))
+            ok = sorted((a, b, c) for a, b, c in kinds) == [(False, True, False), (True, False, True)]
+        if len(rets_) == 1:
+            rv = rets_[0].value
+            if isinstance(rv, ast.Name):
+                lp_ = [x for x in ngi.body if isinstance(x, ast.For)]
+                tail = ngi.body[ngi.body.index(lp_[-1]) + 1:] if lp_ else []
+                dv = _sem16.decision_value(ngi, tail, rv.id, prior=ast.Name(id=rv.id, ctx=ast.Load()))
+                rv = dv if dv is not None else rv
+            t_ = unparse(_Rev().visit(ast.fix_missing_locations(rv)))
+            m_ = re.match(r'^REV\((\w+)\) if is_reversed else (\w+)$', t_) or re.match(r'^(\w+) if not is_reversed else REV\((\w+)\)$', t_)
+            ok = bool(m_) and m_.group(1) == m_.group(2)
     chk.ob('C16.i', 'interjacent exons collected by the backward scan are reversed back to ascending order (and only then)', gi.where, ok,
            f"order of the returned exon indices depends on the scan direction ({bad_sort or 'reversal not tied to is_reversed'}): create_*_deletion / substitution read "
            "interjacent[0] and interjacent[-1] the wrong way round when more than one exon lies in the intron", key=gi.qual + '::ascending', fn=gi.qual)
